@@ -482,7 +482,8 @@ def site_with_prev(draw, tier="quick", ops=("eq", "le", "ge", "in", "getitem"), 
                 nk = draw(st.integers(10, 14).map(lambda i: ["int", i]))
                 if all(gv.build(nk) != gv.build(a) for a, _b in kv) and all(
                         gv.build(nk) != gv.build(e[0]) for e in events):
-                    kv.append([nk, draw(gv.hashable_leaves(tier))])
+                    # (anywhere: an unused entry in front of used ones shifts the positions of later inserts)
+                    kv.insert(draw(st.integers(0, len(kv))), [nk, draw(gv.hashable_leaves(tier))])
             pd = ["dict", kv]
             if draw(st.integers(0, 2)) == 0:
                 # a key of the previous value that is only looked up (an optional field that is not compared)
